@@ -80,7 +80,7 @@ theorem fact_decision_branch_tables :
       [("policy == constant.ReleasePolicyPodDelete || p.supportReserveIPPolicy(keyObj, policy) != nil", "release"),
        ("policy == constant.ReleasePolicyNever", "reserve-own"),
        ("policy == constant.ReleasePolicyImmutable",
-        "[let appExist, replicas, err := p.checkAppAndReplicas(keyObj)] [err != nil -> error] [let shouldRelease, reason, err := p.shouldRelease(keyObj, appExist, replicas)] [err != nil -> error] [!shouldRelease -> reserve-own] release"),
+        "[let appExist, replicas, err := p.checkAppAndReplicas(keyObj)] [err != nil -> error] [let shouldRelease, reason, err := p.shouldRelease(keyObj, appExist, replicas)] [err != nil -> error] [shouldRelease -> release] reserve-own"),
        ("otherwise", "nil")] ∧
     Generated.C03.supportReserveTable =
       [("obj.Deployment() || obj.StatefulSet()", "nil"),
@@ -114,7 +114,19 @@ theorem fact_unbind_dp_decides_under_pool_lock : Generated.C03.unbindDpCountAndD
     passes an empty `Attr` (the model's `reserveLoop`: `{ a with policy := r.policy }`). -/
 theorem fact_reserve_copies_stored_policy :
     Generated.C03.reserveCopiesStoredPolicy = true ∧ Generated.C03.assignWritesPolicyFromAttr = true ∧
-    Generated.C03.reserveShape = true ∧ Generated.C03.reserveIPPassesEmptyAttr = true := by decide
+    Generated.C03.reserveShape = true ∧ Generated.C03.reserveIPPassesEmptyAttr = true ∧
+    ∀ k a b c : Bool, Generated.C03.reserveTouches k a b c = (k && !(a && b && c)) := by
+  refine ⟨by decide, by decide, by decide, by decide, fun k a b c => ?_⟩
+  unfold Generated.C03.reserveTouches
+  cases k <;> cases a <;> cases b <;> cases c <;> rfl
+
+/-- Replicas of a scalable custom resource come out of the crd cache's lister, and `getLister` hands a lister out only
+    after the informer's initial LIST has been stored: flag read, informer start, `WaitForCacheSync` and flag write sit
+    in ONE `c.lock` scope that lasts to the end of the function.  This is what justifies modelling `GetReplicas` for
+    custom-resource kinds as an answer from API truth (`CRs.replicas`, no "empty before sync" state); the forced
+    two-goroutine schedule `cr-cache-first-use` of harness/cmd/c03 checks the same on the real cache. -/
+theorem fact_crd_cache_synced_before_visible :
+    Generated.C03.crdListerHandedOutOnlyAfterSync = true ∧ Generated.C03.crdGetReplicasReadsSyncedLister = true := by decide
 
 /-- The resync closure decides with the policy of the record it has just re-read (`obj.fip = fip`, then
     `constant.ReleasePolicy(obj.fip.Policy)`), the event path with the policy parsed from the event's pod. -/
